@@ -33,6 +33,8 @@ type fam struct {
 var fams = []fam{
 	{[]string{"nanoseconds", "microseconds", "milliseconds", "seconds"}, []int64{1, 1000, 1000000, 1000000000}},
 	{[]string{"bytes", "kb", "mb"}, []int64{1, 1024, 1024 * 1024}},
+	// decimal prefixes whose float64 ratios are not whole numbers (microgcu -> nanogcu is 999.9999999999999)
+	{[]string{"nanogcu", "microgcu", "milligcu", "gcu"}, []int64{1, 1000, 1000000, 1000000000}},
 }
 
 var typeNames = []string{"cpu", "wall", "alloc", "delay"}
